@@ -4,6 +4,7 @@
 #include "common.hpp"
 #include <occa.hpp>
 #include <occa/internal/utils/verif.hpp>
+#include <occa/internal/core/memory.hpp>
 #include <occa/internal/core/memoryPool.hpp>
 #include <memory>
 
@@ -403,9 +404,8 @@ static bool runCase(const Case &c, Ctx &ctx) {
     why << "after dropping every handle " << liveNow(k) << " backend " << HN[k] << " object(s) are still alive (leak) or were destroyed twice";
     return ctx.fail(why.str());
   }
-#ifdef HAVE_LSAN
-  if (__lsan_do_recoverable_leak_check()) return ctx.fail("LeakSanitizer reports leaked heap memory after dropping every handle");
-#endif
+  // (LeakSanitizer is not part of this oracle: every JIT-built kernel binary that is dlopen'ed leaves a few bytes allocated by
+  //  its own static initialisers, which LSan attributes to an unknown module; leaked *backend objects* are what the counters see)
   if (sharedFreeSeen || swapSeen) { ctx.nontrivial = true; }
   if (sharedFreeSeen) ctx.cls("free-with>=2-handles");
   if (swapSeen) ctx.cls("swap");
